@@ -330,7 +330,7 @@ fn tier_runs(tier: &str) -> u64 {
 
 fn spawn_run(bin: &Path, prop: &str, root: &Path, profile: &str, seed: u64, runs: u64, workers: usize, out: &Path, digests: Option<&Path>) -> Result<(i32, J, String), String> {
     let _ = std::fs::remove_file(out);
-    let mut cmd = std::process::Command::new(bin);
+    let mut cmd = sim::child_command(bin);
     cmd.arg("run").arg("--prop").arg(prop).arg("--root").arg(root).arg("--profile").arg(profile).arg("--seed").arg(seed.to_string()).arg("--runs").arg(runs.to_string()).arg("--workers").arg(workers.to_string()).arg("--depth").arg(sim::depth().to_string()).arg("--out").arg(out);
     if let Some(d) = digests {
         cmd.arg("--dump-digests").arg(d);
@@ -703,7 +703,7 @@ fn cmd_conc(args: &Args) -> i32 {
         if running.len() >= workers {
             let _ = running.remove(0).wait();
         }
-        let mut cmd = std::process::Command::new(&me);
+        let mut cmd = sim::child_command(&me);
         cmd.arg("conc-lane").arg("--prop").arg(&prop).arg("--seed").arg(seed.to_string()).arg("--lane").arg(lane.to_string()).arg("--iterations").arg(iters.to_string()).arg("--max-secs").arg(args.u64("max-secs").unwrap_or(60).to_string()).arg("--dir").arg(work.join(format!("sched-{}", lane))).arg("--out").arg(work.join(format!("lane-{}.json", lane)));
         cmd.stdout(std::process::Stdio::null()).stderr(std::process::Stdio::null());
         if let Ok(c) = cmd.spawn() {
@@ -743,7 +743,7 @@ fn cmd_conc(args: &Args) -> i32 {
             let keep = replays.join(format!("{}-conc-seed{}-lane{}.schedule", prop, seed, lane));
             let _ = std::fs::copy(&sf, &keep);
             // a fresh process must fail the same way from the schedule alone
-            let ok = std::process::Command::new(&me).arg("conc-replay").arg("--prop").arg(&prop).arg("--schedule").arg(&keep).arg("--machine").output().map(|o| o.status.code() == Some(1) && String::from_utf8_lossy(&o.stdout).contains(&format!("class={} ", class))).unwrap_or(false);
+            let ok = sim::child_command(&me).arg("conc-replay").arg("--prop").arg(&prop).arg("--schedule").arg(&keep).arg("--machine").output().map(|o| o.status.code() == Some(1) && String::from_utf8_lossy(&o.stdout).contains(&format!("class={} ", class))).unwrap_or(false);
             if ok {
                 let file = replays.join(format!("{}-conc-seed{}-lane{}.json", prop, seed, lane));
                 let j = J::obj()
@@ -768,7 +768,7 @@ fn cmd_conc(args: &Args) -> i32 {
         if !reported {
             // the schedule alone is not enough (state carried over from earlier iterations): the whole lane is the replay
             let again = work.join("again.json");
-            let ok = std::process::Command::new(&me).arg("conc-lane").arg("--prop").arg(&prop).arg("--seed").arg(seed.to_string()).arg("--lane").arg(lane.to_string()).arg("--iterations").arg(iters.to_string()).arg("--max-secs").arg("100000").arg("--dir").arg(work.join("again-sched")).arg("--out").arg(&again).status().is_ok()
+            let ok = sim::child_command(&me).arg("conc-lane").arg("--prop").arg(&prop).arg("--seed").arg(seed.to_string()).arg("--lane").arg(lane.to_string()).arg("--iterations").arg(iters.to_string()).arg("--max-secs").arg("100000").arg("--dir").arg(work.join("again-sched")).arg("--out").arg(&again).status().is_ok()
                 && read_json(&again).ok().map(|j| j.get("failed").and_then(|x| x.as_bool()) == Some(true) && j.get("violation").and_then(|v| v.get("class")).and_then(|x| x.as_str()) == Some(class.as_str())).unwrap_or(false);
             if ok {
                 let file = replays.join(format!("{}-conc-seed{}-lane{}.json", prop, seed, lane));
